@@ -22,7 +22,8 @@ LEVEL = "translation_validation"
 MOD = "pv.props.c05"
 
 TRANSFORMS = ["copy_mapper", "map_and_copy_identity", "map_and_copy_retag_leaves", "deduplicate", "deduplicate_data_wrappers",
-              "eliminate_dead_code", "materialize_with_mpms", "retag_leaves+materialize_with_mpms", "unify_axes_tags", "preprocess"]
+              "eliminate_dead_code", "materialize_with_mpms", "retag_leaves+materialize_with_mpms", "unify_axes_tags",
+              "prefix_named_wrappers+preprocess", "preprocess"]
 IDEMPOTENT = {"deduplicate", "eliminate_dead_code", "materialize_with_mpms"}
 TAGS_ONLY = {"materialize_with_mpms", "unify_axes_tags", "map_and_copy_retag_leaves", "retag_leaves+materialize_with_mpms"}
 
@@ -70,6 +71,21 @@ def apply_transform(name, dag):
     if name == "unify_axes_tags":
         from pytato.transform.metadata import unify_axes_tags
         return unify_axes_tags(dag), {}
+    if name == "prefix_named_wrappers+preprocess":
+        # every wrapped array asks for the same name prefix: preprocessing must still bind each under its own name
+        from pytato.tags import PrefixNamed
+
+        from pytato.tags import _BaseNameTag
+
+        def pfx(x):
+            if isinstance(x, pt.DataWrapper):
+                for t in x.tags_of_type(_BaseNameTag):
+                    x = x.without_tags(t)
+                return x.tagged(PrefixNamed("dwp"))
+            return x
+        from pytato.codegen import preprocess
+        r = preprocess(T.deduplicate(T.map_and_copy(dag, pfx)), _target())
+        return r.outputs, dict(r.bound_arguments)
     if name == "preprocess":
         from pytato.codegen import preprocess
         r = preprocess(T.deduplicate(dag), _target())
